@@ -66,6 +66,9 @@ class PteraNameError(NameError):
     def __init__(self, varname, function):
         self.varname = varname
         self.function = function
+        # Looked up now: the table is gone once the function is restored
+        table = getattr(function, "__ptera_info__", None) or {}
+        self._info = table.get(varname, {})
         prov = self.info().get("provenance", None)
         if prov == "external":
             msg = (
@@ -83,7 +86,7 @@ class PteraNameError(NameError):
 
     def info(self):
         """Return information about the missing variable."""
-        return self.function.__ptera_info__[self.varname]
+        return self._info
 
 
 def name_error(varname, function, pop_frames=1):
